@@ -437,7 +437,7 @@ def new_block(ctx, n, base="blk", octets=True):
         for _ in range(n):
             v = ctx.fresh_int(base + "e")
             if octets:
-                ctx.assume(z3.And(v >= 0, v <= 255))
+                ctx.assume(z3.And(v >= 0, v <= (255 if octets is True else int(octets))))
             els.append(v)
         return els
     s = ctx.fresh_seq(base)
